@@ -32,7 +32,8 @@ def plan(tier, seed):
     n = 8000 if tier == "quick" else 500000
     big = 2 if tier == "quick" else 40
     return [{"kind": "random", "start": p * (n // NSHARDS), "count": n // NSHARDS} for p in range(NSHARDS)] + \
-        [{"kind": "long", "start": p * big, "count": big} for p in range(NSHARDS)]
+        [{"kind": "long", "start": p * big, "count": big} for p in range(NSHARDS)] + \
+        [{"kind": "huge", "start": p, "count": 1} for p in range(2 if tier == "quick" else 12)]
 
 
 def gen_data(rng):
@@ -191,15 +192,21 @@ def run_long_case(ctx, kind_, idx):
     rng = ctx.rng(kind_, idx)
     cid = ctx.case_id(kind_, idx)
     m = int(rng.integers(1001, 2501))
+    if kind_ == "huge":
+        # a month of minute samples / a day of second samples: beyond 2**15 and 2**16 points
+        m = int(rng.integers(33000, 70001))
     step = float(rng.choice([60.0, 1.0, 0.25]))
     x = step * np.arange(m, dtype=float) + float(rng.choice([0.0, 1.7e9 if step >= 1 else 5.0]))
     u = np.linspace(0.0, 1.0, m)
-    base = 10.0 + 5.0 * np.sin(2 * np.pi * u * float(rng.integers(1, 4))) + 0.05 * rng.normal(0, 1, m)
+    base = 10.0 + 5.0 * np.sin(2 * np.pi * u * float(rng.integers(1, 4))) + (1e-3 if kind_ == "huge" else 0.05) * rng.normal(0, 1, m)
     amp = float(rng.choice([6.0, -4.0, 1.5]))
     bump = np.where((u > 0.2) & (u < 0.8), amp * np.exp(-((u - 0.5) / 0.05) ** 2), 0.0)
     ya, yb = base, base + bump
     mode = ["to_function_two_objects", "to_function_same_object", "smooth_two_objects", "smooth_zero", "function"][int(rng.integers(0, 5))]
     s = float(10 ** rng.uniform(-1, 1.5))
+    if kind_ == "huge":
+        mode = ["smooth_two_objects", "smooth_zero", "to_function_two_objects"][idx % 3]
+        s = float(10 ** rng.uniform(0.5, 2))       # well above the noise energy (m * 1e-6): the fit converges quickly
     info = {"m": m, "mode": mode, "s": s, "step": step, "x0": float(x[0]), "event_amplitude": amp}
     mag = float(np.max(np.abs(yb)))
     irel = 1e-9 + 100 * tol.cond_x(x)
@@ -267,8 +274,8 @@ def run_long_case(ctx, kind_, idx):
 
 def run(ctx, spec):
     for idx in range(spec["start"], spec["start"] + spec["count"]):
-        (run_long_case if spec["kind"] == "long" else run_case)(ctx, spec["kind"], idx)
+        (run_long_case if spec["kind"] in ("long", "huge") else run_case)(ctx, spec["kind"], idx)
 
 
 def replay(ctx, case):
-    (run_long_case if case["kind"] == "long" else run_case)(ctx, case["kind"], case["idx"])
+    (run_long_case if case["kind"] in ("long", "huge") else run_case)(ctx, case["kind"], case["idx"])
